@@ -349,8 +349,9 @@ def text_columns(inp, st):
         cols.append("p" + fnum(t))
     for q in inp["quantiles"]:
         cols.append("q" + fnum(q))
+    labels = st.get("member_labels") or list(range(inp["members"]))
     for e in range(inp["members"]):
-        cols.append("e%d" % e)
+        cols.append("e%d" % labels[e])
     for o in inp["others"]:
         cols.append(o)
     return cols
@@ -440,7 +441,8 @@ def cell_value(inp, c, col):
             return None if v is None else v[qs.index(col[1:])]
     if col[0] == "e" and _isnum(col[1:]) and inp["members"]:
         e = c.get("e")
-        return None if e is None else e[int(col[1:])]
+        labels = (inp.get("style") or {}).get("member_labels") or list(range(inp["members"]))
+        return None if e is None else e[labels.index(int(col[1:]))]
     o = c.get("o") or {}
     return o.get(col)
 
@@ -475,6 +477,9 @@ def write_nc(inp, path, rng=None):
     encs = st["enc"]
     ot, ol, os_ = st["order"]["time"], st["order"]["leadtime"], st["order"]["location"]
     times = [inp["times"][i] for i in ot]
+    if st.get("unset_time_slot") is not None:
+        # a preallocated but never written entry of the (unlimited) time dimension: the time value and all its data are missing
+        times.insert(min(int(st["unset_time_slot"]), len(times)), None)
     leads = [inp["leadtimes"][i] for i in ol]
     locs = [inp["locs"][i] for i in os_]
     T, L, S = len(times), len(leads), len(locs)
@@ -483,9 +488,13 @@ def write_nc(inp, path, rng=None):
         f.createDimension("time", None)
         f.createDimension("leadtime", L)
         f.createDimension("location", S)
-        vt = f.createVariable("time", st.get("time_type", "f8"), ("time",))
+        if None in times:
+            vt = f.createVariable("time", "f8", ("time",))
+            vt[:] = np.ma.masked_invalid(np.array([np.nan if t_ is None else t_ for t_ in times], float))
+        else:
+            vt = f.createVariable("time", st.get("time_type", "f8"), ("time",))
+            vt[:] = np.array(times)
         vl = f.createVariable("leadtime", "f4", ("leadtime",))
-        vt[:] = np.array(times)
         vl[:] = np.array(leads, "f4")
         sv = st["vars"]
         if sv.get("location", True):
@@ -512,7 +521,7 @@ def write_nc(inp, path, rng=None):
             for a, t in enumerate(times):
                 for b, l in enumerate(leads):
                     for c_, loc in enumerate(locs):
-                        cell = inp["cells"].get(ck(t, l, loc[0]))
+                        cell = inp["cells"].get(ck(t, l, loc[0])) if t is not None else None
                         vals = getter(cell) if cell is not None else None
                         if extra:
                             vals = vals if vals is not None else [None] * extra
